@@ -216,6 +216,8 @@ class StmtMixin:
             if not self.ctx.branch(self.dhas(r, k), "del-has-key"):
                 self.raise_("KeyError", self.anchor(node))
             self.check_owned(base, node, "del")
+            if nm == "OrderedDict":
+                self.od_remove_at(base, self.od_find(base, k))
             self.dict_del(r, k)
             return
         if nm == "list":
@@ -270,6 +272,9 @@ class StmtMixin:
     def assign_name(self, name, v):
         # closures: nonlocal writes are not used in the repo; assignment always binds in the current frame
         self.frame.locals[name] = v
+        mu = self.frame.__dict__.get("maybe_unbound")
+        if mu:
+            mu.discard(name)
 
     def unpack(self, v, n, node):
         tv = self.tag(v, "unpack")
@@ -331,7 +336,14 @@ class StmtMixin:
         r = Val.r(base)
         if nm in ("dict", "OrderedDict"):
             self.check_owned(base, node, "setitem")
-            self.dict_set(r, z3.simplify(idx), v)
+            k = z3.simplify(idx)
+            if nm == "OrderedDict":
+                if self.ctx.branch(self.dhas(r, k), "od-set-existing"):
+                    self.st.dval = z3.Store(self.st.dval, r, z3.Store(z3.Select(self.st.dval, r), k, v))
+                    self.st.writes.append(("dict", r, None))
+                    return
+                self.list_append(Val.r(self.od_keys(base)), k)
+            self.dict_set(r, k, v)
             return
         if nm == "list":
             ti = self.tag(idx, "setitem-idx")
@@ -431,7 +443,9 @@ class StmtMixin:
     def havoc_loop(self, body, extra_modifies=None):
         names = assigned_names(body)
         for n in names:
-            f = self.frame
+            if n not in self.frame.locals:
+                # not bound before the loop: in the first iteration a read before the assignment finds it unbound
+                self.frame.__dict__.setdefault("maybe_unbound", set()).add(n)
             self.frame.locals[n] = self.ctx.fresh("hv_" + n, Val)
         self.havoc_heap_for(body, extra_modifies)
         return names
@@ -602,7 +616,11 @@ class StmtMixin:
                     return e
                 return Seq("list", self.llen(r), typed, it)
             return Seq("list", self.llen(r), lambda i: z3.Select(arr, i), it)
-        if nm in ("dict", "OrderedDict"):
+        if nm == "OrderedDict":
+            kl = self.od_keys(it)
+            karr = self.lel(Val.r(kl))
+            return Seq("list", self.llen(Val.r(kl)), lambda i: z3.Select(karr, i), kl)
+        if nm == "dict":
             return self.dict_seq(r, "keys")
         ci = self.table.info.get(cid)
         if ci is not None:
